@@ -6,6 +6,7 @@ import (
 	"runtime/debug"
 	"sort"
 	"strconv"
+	"strings"
 	"time"
 
 	"Havoc/pkg/packager"
@@ -179,6 +180,13 @@ func RunPivot(behs [][]Step, tr *Trace, env Env, sum *Summary) {
 					b := &refdemon.Buf{}
 					b.I32(refdemon.PivotSmbConnect).I32(1).Bytes(inner)
 					check(s.send(a, refdemon.Sub{Cmd: refdemon.CmdPivot, Req: 0, Body: b.B}), "Connect")
+				case "Restart":
+					if pan, to := guarded(func() { must(w.Restart()) }, 20*time.Second); pan != "" || to {
+						if strings.Contains(pan, "harness-error") {
+							panic(pan)
+						}
+						fail(map[bool]string{true: "hang", false: "panic"}[to], "Restart", firstLines(pan, 16))
+					}
 				case "Disconnect":
 					b := &refdemon.Buf{}
 					b.I32(refdemon.PivotSmbDisconnect).I32(1).I32(s.ids[c])
